@@ -268,7 +268,7 @@ def replay(ctx, path):
     ctx.lean_obligations(f"Pixman.Props.{ctx.pid}", [])
     ctx.pixdrv("composite", ops, model)
     n, dis = diff_streams(ops, impl, model)
-    orc_txt = orc.read_text().strip()
+    orc_txt = "\n".join(l for l in orc.read_text().split("\n") if l.startswith("ORACLE")).strip()   # STAT lines are counters
     for l, a, m in zip(batch, impl.read_text().split("\n"), model.read_text().split("\n")):
         log(f"  {l}  ->  library {a}   model {m}")
     if orc_txt:
